@@ -23,11 +23,20 @@ pub struct SessionHandle {
     pub session_id: String,
     sender: broadcast::Sender<Event>,
     events: Arc<Mutex<Vec<Event>>>,
+    started: Arc<std::sync::atomic::AtomicBool>,
 }
 
 impl SessionHandle {
     pub fn subscribe(&self) -> broadcast::Receiver<Event> {
         self.sender.subscribe()
+    }
+
+    /// Marks the session as started. Returns `false` when it had been started before: a session
+    /// is one run, a second input must not start another run on the same stream.
+    pub(crate) fn mark_started(&self) -> bool {
+        !self
+            .started
+            .swap(true, std::sync::atomic::Ordering::SeqCst)
     }
 
     pub(crate) async fn events_snapshot(&self) -> Vec<Event> {
@@ -118,6 +127,7 @@ impl SessionEngine {
             session_id,
             sender,
             events: Arc::new(Mutex::new(Vec::new())),
+            started: Arc::new(std::sync::atomic::AtomicBool::new(false)),
         }
     }
 
